@@ -280,6 +280,7 @@ func runC11(c *Ctx) {
 	c.c11Separators()
 	c.c11ConverterTables()
 	c.c11MessagesAreNotFormats()
+	c.c11ContextFirst()
 }
 
 // c11Separators (D7): writer and reader of the text form agree. The constructors write "kind<sep> reason" and the
@@ -1399,4 +1400,79 @@ func (c *Ctx) c11MessagesAreNotFormats() {
 	if len(callees) == 0 {
 		c.info("D12", cePkg+"/no-message-in-format-position", "-", "no constructor hands a finished message to a printf-like constructor")
 	}
+}
+
+// c11ContextFirst (D13): "a cause that is a cancellation or a deadline is never reclassified". Every constructor and every
+// converter starts by handing its cause to ConvertContextError and relies on getting ErrCancelled / ErrTimeout back for
+// anything that contains context.Canceled / context.DeadlineExceeded — also when the error carries a kind of the library
+// besides (a join of a worker's 'invalid' with a cancellation). ConvertContextError therefore returns its argument as it is
+// only where both tests for the two context errors answered false.
+func (c *Ctx) c11ContextFirst() {
+	c.rule("D13", "ConvertContextError hands its argument back unchanged only where it was found to contain neither context.Canceled nor context.DeadlineExceeded", 1)
+	f := c.fn(cePkg, "ConvertContextError")
+	if f == nil || len(f.Params) == 0 {
+		return
+	}
+	c.FuncsSeen[fname(f)] = true
+	prm := f.Params[0]
+	// the two tests: Any(err, context.Canceled) / errors.Is(err, context.Canceled) and the same for DeadlineExceeded
+	tests := map[string][]*ssa.If{}
+	for _, b := range f.Blocks {
+		ifi, ok := b.Instrs[len(b.Instrs)-1].(*ssa.If)
+		if !ok {
+			continue
+		}
+		v, _ := boolTest(ifi)
+		cl, isCall := v.(*ssa.Call)
+		if !isCall || len(cl.Call.Args) < 2 || resolveValue(cl.Call.Args[0]) != ssa.Value(prm) {
+			continue
+		}
+		n := calleeFull(&cl.Call)
+		if !(strings.HasSuffix(n, "commonerrors.Any") || n == "errors.Is") {
+			continue
+		}
+		var kinds []ssa.Value
+		if n == "errors.Is" {
+			kinds = []ssa.Value{cl.Call.Args[1]}
+		} else {
+			kinds = variadicElems(cl.Call.Args[1])
+		}
+		for _, k := range kinds {
+			if u, ok := stripConv(k).(*ssa.UnOp); ok {
+				if g, ok := u.X.(*ssa.Global); ok && g.Pkg != nil && g.Pkg.Pkg.Path() == "context" {
+					tests[g.Name()] = append(tests[g.Name()], ifi)
+				}
+			}
+		}
+	}
+	bad := ""
+	allInstrs(f, func(in ssa.Instruction) {
+		r, ok := in.(*ssa.Return)
+		if !ok || len(r.Results) != 1 {
+			return
+		}
+		unchanged := false
+		for _, l := range sources(r.Results[0], deriveOpts{}) {
+			if l == ssa.Value(prm) {
+				unchanged = true
+			}
+		}
+		if !unchanged {
+			return
+		}
+		for _, kind := range []string{"Canceled", "DeadlineExceeded"} {
+			found := false
+			for _, ifi := range tests[kind] {
+				_, ts := boolTest(ifi)
+				if edgeDominates(ifi.Block(), 1-ts, r.Block()) {
+					found = true
+				}
+			}
+			if !found {
+				bad = c.ipos(r) + " (context." + kind + " not excluded)"
+			}
+		}
+	})
+	c.check(bad == "", "D13", fname(f)+"/unchanged-only-without-a-context-error", c.pos(f.Pos()), "the argument is returned unchanged only past both context tests",
+		"ConvertContextError can hand its argument back as it is at "+bad+": an error that carries a kind of the library and contains a cancellation or a deadline (errors.Join(New(ErrInvalid, …), context.Canceled)) is then no longer turned into 'cancelled' / 'timeout' — WrapError, New and the converters, which all start with this call, reclassify the cancellation")
 }
